@@ -28,6 +28,19 @@ CHECKS = {
 
 NOT_APPLICABLE = []
 
+CHECKS['C17'] = (
+    'symbolic execution of the real process_cron_triggers_v2 / '
+    'advance_cron_trigger and db-api on minidb (captured SQLAlchemy clause '
+    'trees interpreted over symbolic rows); processors are actors whose '
+    'interleaving, clock readings, cron pattern result and unordered-SELECT '
+    'row choice are solver variables; z3 decides every path',
+    'Due predicate, CAS criterion, one advance step from an arbitrary valid '
+    'trigger state, and 2-3 concurrent processors over one trigger (count '
+    'symbolic) under all interleavings incl. one crash: one winner per due '
+    'occurrence, fires <= count, removed when exhausted, right input / '
+    'project, no confusion with a same-named public trigger elsewhere.',
+    '§3 C17')
+
 CHECKS['C13'] = (
     'symbolic execution of the real DefaultScheduler and db-api on an '
     'in-memory backend that interprets the captured SQLAlchemy clause trees '
